@@ -3,8 +3,10 @@ import Reduino.Lang.CSem
   `tr` — the transpiler (parser.py + emitter.py) on the core fragment.
   Mirrors: declaration at first top-level assignment (`_handle_assignment_ast`: a name-free constant initialiser goes
   into the global declaration, anything else gets the type's default and a run-time assignment in setup()),
-  first-assignment-wins typing, `x op= e` → `x = (x op e)`, folding of name-free `sleep(...)` / `range(...)`
-  arguments, the setup/loop split and the `break` guard of the main loop.
+  first-assignment-wins typing, `x op= e` → `x = (x op e)` (every operator of `_BIN`, so `&= |= ^= //= %=` too), folding of
+  name-free `sleep(...)` / `range(...)` arguments to their PYTHON value (`sleep(-7 % 3)` becomes `delay(2)` although
+  `(-7 % 3)` emitted as text is -1 in C), the setup/loop split and the `break` guard of the main loop.
+  A name-free initialiser that Python cannot evaluate (`x = 7 // 0`) is not a constant: default + run-time assignment.
   Programs that assign a NEW name below the top level (they need the promotion machinery) are outside the fragment.
 -/
 namespace Reduino.Lang
@@ -25,6 +27,8 @@ def Expr.nameFree : Expr → Bool
   | .or a b => a.nameFree && b.nameFree
   | .not a => a.nameFree
   | .ite c a b => c.nameFree && a.nameFree && b.nameFree
+  | .abs a => a.nameFree                 -- `abs`, `min`, `max` are not names for `_expr_has_name`
+  | .mm _ a b => a.nameFree && b.nameFree
 
 /-- `_infer_expr_type` on the fragment -/
 def inferTy (te : C.TyEnv) : Expr → Ty
@@ -38,6 +42,8 @@ def inferTy (te : C.TyEnv) : Expr → Ty
   | .or _ _ => .bool
   | .not _ => .bool
   | .ite _ a b => if inferTy te a = inferTy te b then inferTy te a else .int
+  | .abs _ => .int                       -- `_BUILTIN_CALL_RETURN_TYPES`
+  | .mm _ _ _ => .int
 
 /-- `_eval_const` on a name-free expression: Python's own value -/
 def evalConst (e : Expr) : Option Val := if e.nameFree then (Py.eval [] e).toOption else none
